@@ -88,3 +88,26 @@ def contains_bad(a, b):
 def string_bad(x):
     _rec("string#bad", (x,))
     raise AttributeError("no such attribute")
+
+
+class BadInput(ValueError):
+    pass
+
+
+class BadKind(TypeError):
+    pass
+
+
+def hvsub(a):
+    """raises a SUBCLASS of ValueError"""
+    _rec("hvsub", (a,))
+    import json
+
+    if int(a) % 2:
+        raise BadInput("bad input")
+    raise json.JSONDecodeError("not json", "x", 0)
+
+
+def htsub(a):
+    _rec("htsub", (a,))
+    raise BadKind("bad kind")
